@@ -131,6 +131,35 @@ func (x *Exec) fresh(hint string, t types.Type) Term {
 	return v
 }
 
+// named introduces a definitional constant for a large term (keeps queries small and trigger-friendly).
+func (x *Exec) named(hint string, v Term) Term {
+	if x.termMode || len(v.S) < 24 || v.S == "" {
+		return v
+	}
+	nv := x.W.Fresh(hint, v.Sort)
+	nv.GoT = v.GoT
+	x.W.Facts = append(x.W.Facts, Eq(nv, v).S)
+	return nv
+}
+
+// seqUpdateFacts names an updated sequence and states the update at the level of element access
+// (at(new,i)==v and the frame for every other index), so that E-matching does not have to go through
+// the array encoding.
+func (x *Exec) seqUpdateFacts(nv, old, i, v Term) Term {
+	if x.termMode {
+		return nv
+	}
+	c := x.W.Fresh("upd", nv.Sort)
+	c.GoT = nv.GoT
+	x.W.Facts = append(x.W.Facts, Eq(c, nv).S)
+	x.W.Facts = append(x.W.Facts, Eq(x.W.SeqAt(c, i), v).S)
+	x.W.nfresh++
+	q := fmt.Sprintf("q!%d", x.W.nfresh)
+	qi := T(q, SInt)
+	x.W.Facts = append(x.W.Facts, fmt.Sprintf("(forall ((%s Int)) (! (=> (not (= %s %s)) (= %s %s)) :pattern (%s)))", q, q, i.S, x.W.SeqAt(c, qi).S, x.W.SeqAt(old, qi).S, x.W.SeqAt(c, qi).S))
+	return c
+}
+
 // typeFacts adds range facts for narrow integer types and sequence well-formedness.
 func (x *Exec) typeFacts(v Term, t types.Type, pc Term) {
 	if f := x.typeInv(v, t); f.S != "true" {
@@ -644,7 +673,7 @@ func (x *Exec) execAssign(s *ast.AssignStmt, env *Env) *Env {
 				if obj := info.Defs[id]; obj != nil {
 					v := vals[i]
 					v.GoT = obj.Type()
-					env.vars[obj] = v
+					env.vars[obj] = x.named(id.Name, v)
 					continue
 				}
 			}
@@ -683,7 +712,7 @@ func (x *Exec) assign(l ast.Expr, v Term, env *Env) {
 			v = x.fresh(l.Name, obj.Type())
 		}
 		v.GoT = obj.Type()
-		env.vars[obj] = v
+		env.vars[obj] = x.named(l.Name, v)
 	case *ast.ParenExpr:
 		x.assign(l.X, v, env)
 	case *ast.StarExpr:
@@ -715,9 +744,11 @@ func (x *Exec) assign(l ast.Expr, v Term, env *Env) {
 		case *types.Slice:
 			i := x.eval(l.Index, env)
 			x.safetyCheck(env, "index", types.ExprString(l), And(Cmp("<=", IntLit(0), i), Cmp("<", i, x.W.SeqLen(cur))))
-			nb := Store(x.W.SeqBase(cur), Arith("+", x.W.SeqOff(cur), i), x.coerce(v, x.W.SeqElem(cur.Sort)))
+			ev := x.coerce(v, x.W.SeqElem(cur.Sort))
+			nb := Store(x.W.SeqBase(cur), Arith("+", x.W.SeqOff(cur), i), ev)
 			nv, _ := x.W.WithField(cur, "base", nb)
 			nv.GoT = xt
+			nv = x.seqUpdateFacts(nv, cur, i, ev)
 			x.assign(l.X, nv, env)
 		case *types.Array:
 			i := x.eval(l.Index, env)
